@@ -312,12 +312,25 @@ def libpass_diff(run):
                 if name.endswith("_crypt"):
                     r = rng.choice([1000, 1001, 1041, 1042, 1043, 5000, 2049])
                     salt = "".join(rng.choice(F.H64) for _ in range(rng.choice([1, 8, 15, 16])))
-                    got = cls(rounds=r).hash(pw, salt=salt)
+                    inst = cls(rounds=r)
+                    if i % 2:
+                        # the same hasher object first verifies a reference-made hash of another cost, then hashes: its own cost must still apply
+                        other = F.sha_crypt(name[:6], pw, salt[::-1], r + 7)
+                        run.count("libpass_verify_then_hash")
+                        if inst.verify(other, pw) is not True:
+                            run.violation(f"C02|libpass.{name}|ref-hash-rejected", f"libpass {name}: a reference-made hash (rounds {r + 7}) is rejected", dict(name=name, password=pw, hash=other))
+                    got = inst.hash(pw, salt=salt)
                     want = F.sha_crypt(name[:6], pw, salt, r)
                 elif name.startswith("pbkdf2"):
                     r = rng.choice([1, 2, 3, 100, 1000])
                     salt = H.pw_bytes(rng, rng.choice([1, 8, 16, 33]), "binary")
-                    got = cls(rounds=r).hash(pw, salt=salt)
+                    inst = cls(rounds=r)
+                    if i % 2:
+                        other = F.pbkdf2_digest(name[7:], pw, salt[::-1] + b"x", r + 5, slow=True)
+                        run.count("libpass_verify_then_hash")
+                        if inst.verify(other, pw) is not True:
+                            run.violation(f"C02|libpass.{name}|ref-hash-rejected", f"libpass {name}: a reference-made hash (rounds {r + 5}) is rejected", dict(name=name, password=pw, hash=other))
+                    got = inst.hash(pw, salt=salt)
                     want = F.pbkdf2_digest(name[7:], pw, salt, r, slow=True)
                 elif name == "bcrypt":
                     salt22 = H.gen_salt(H.get("bcrypt"), rng, 22)
